@@ -100,6 +100,11 @@ def timeout_ms():
     return 60000 if C.tier() == "quick" else 300000
 
 
+def budget_s():
+    """wall-clock budget of one lemma's path exploration (beyond it: inconclusive)"""
+    return 420 if C.tier() == "quick" else 3000
+
+
 def second_solver(chk, decider, label):
     """thorough tier: every query of the lemma, as SMT-LIB2 text, re-decided by cvc5 (python
     wheel of the tooling venv is not scriptable on text: the binary is used)"""
@@ -143,6 +148,7 @@ class Lemma(object):
         self.assume = list(assume)
         self.dec = S.Decider(timeout_ms=timeout_ms(), seed=C.seed())
         self.feasible_by_outcome = {}
+        self.deadline = time.time() + budget_s() + 300
 
     def must_be_unsat(self, path, extra, name, mk_replay):
         """pc & assumptions & extra must be unsatisfiable"""
@@ -150,6 +156,64 @@ class Lemma(object):
         vcname = "%s: %s" % (self.label, name)
         self.chk.add_vc(vcname, res, dt, len(path.pc))
         if res == "sat":
+            if len(self.chk.counterexamples) < 4:
+                self.chk.counterexamples.append({"vc": vcname, "replay": mk_replay(model, vcname)})
+            return model
+        return None
+
+    def determined(self, path, term):
+        """the unique value of `term` on this path, if the solver proves it unique (then the
+        term may be replaced by that constant in every query about the path), else None"""
+        res, model, _ = self.dec.check(self.assume + path.pc, "string-feasibility")
+        if res != "sat":
+            return None
+        c = model.eval(term, model_completion=True)
+        res2, _, _ = self.dec.check(self.assume + path.pc + [term != c], "string-uniqueness")
+        return c if res2 == "unsat" else None
+
+    def must_be_unsat_subst(self, path, extra, name, mk_replay, term):
+        """as must_be_unsat; when `term` is determined on the path (solver-proved) the query is
+        asked with the constant substituted, which folds the grammar tables"""
+        c = self.determined(path, term)
+        if c is None:
+            return self.must_be_unsat(path, extra, name, mk_replay)
+        cons = [z3.simplify(z3.substitute(x, (term, c))) for x in self.assume + path.pc + list(extra)]
+        res, model, dt = self.dec.check(cons + [term == c], "string-verdict", name=name, keep=True)
+        vcname = "%s: %s" % (self.label, name)
+        self.chk.add_vc(vcname, res, dt, len(path.pc))
+        if res == "sat":
+            if len(self.chk.counterexamples) < 4:
+                self.chk.counterexamples.append({"vc": vcname, "replay": mk_replay(model, vcname)})
+            return model
+        return None
+
+    def must_be_unsat_cases(self, path, term, cases, name, mk_replay):
+        """pc & assumptions & OR_i (term == c_i & extra_i) must be unsatisfiable: decided case by
+        case with the constant substituted for the term (ground string operations fold away, what
+        is left are equalities over the state variables)"""
+        t0 = time.time()
+        worst = "unsat"
+        model = None
+        base = z3.And(self.assume + path.pc) if (self.assume + path.pc) else z3.BoolVal(True)
+        for c, extra in cases:
+            q = z3.simplify(z3.substitute(z3.And(base, extra), (term, c)))
+            if z3.is_false(q):
+                d = self.dec.by_kind.setdefault("string-verdict-case-folded", {})
+                d["unsat"] = d.get("unsat", 0) + 1
+                continue
+            if time.time() > self.deadline:
+                worst = "unknown"
+                self.chk.inconclusive.append("%s: time budget of the lemma exceeded" % self.label)
+                break
+            res, mdl, _ = self.dec.check([q, term == c], "string-verdict-case", name=name)
+            if res == "sat":
+                worst, model = "sat", mdl
+                break
+            if res != "unsat":
+                worst = "unknown"
+        vcname = "%s: %s" % (self.label, name)
+        self.chk.add_vc(vcname, worst, time.time() - t0, len(path.pc))
+        if worst == "sat":
             if len(self.chk.counterexamples) < 4:
                 self.chk.counterexamples.append({"vc": vcname, "replay": mk_replay(model, vcname)})
             return model
@@ -171,7 +235,7 @@ def describe_outcome(o):
 # -------------------------------------------------------------------------------------------------
 
 
-def task_L4F(version):
+def _task_L4F(version):
     chk = Check("C04")
     label = "v%d L4F (free field)" % version
     g = grammar(version)
@@ -180,6 +244,7 @@ def task_L4F(version):
     for_node = node.body[idx]
     MAL = malformed_cls(version)
     ex = S.Executor(mod)
+    ex.deadline = time.time() + budget_s()
     ex.encoded["%s:%s (loop body)" % (fn.__module__, fn.__qualname__)] = (lines[0] + for_node.lineno - node.lineno, lines[0] + for_node.end_lineno - node.lineno)
     f = z3.String("field")
     V = z3.String("vector")
@@ -217,9 +282,14 @@ def task_L4F(version):
     lit = {(met, v): f == z3.StringVal(met + ":" + v) for met, vals in table for v in vals}
     ok = z3.Or([z3.And(c, z3.Not(state.has[met])) for (met, v), c in lit.items()])
     outcomes = {}
+    # accepting paths first: a wrongly accepted string is found there, quickly
+    paths.sort(key=lambda q: {"normal": 0, "break": 1, "return": 1, "unsupported": 2}.get(q.outcome[0], 3))
     for p in paths:
         o = p.outcome
         outcomes[describe_outcome(o)] = outcomes.get(describe_outcome(o), 0) + 1
+        if time.time() > lem.deadline:
+            chk.inconclusive.append("%s: time budget of the lemma exceeded" % label)
+            break
         if o[0] == "unsupported":
             res, _ = lem.is_feasible(p)
             if res != "unsat":
@@ -229,7 +299,8 @@ def task_L4F(version):
             if not isinstance(o[1], MAL):
                 lem.must_be_unsat(p, [], "loop body raises %s (not the version's malformed-vector error)" % type(o[1]).__name__, mk_replay)
                 continue
-            lem.must_be_unsat(p, [ok], "field rejected although it is a legal literal of a metric not seen yet", mk_replay)
+            lem.must_be_unsat_cases(p, f, [(z3.StringVal(met + ":" + v), z3.Not(state.has[met])) for met, vals in table for v in vals],
+                                    "field rejected although it is a legal literal of a metric not seen yet", mk_replay)
             continue
         if o[0] in ("break", "return"):
             lem.must_be_unsat(p, [], "loop body leaves the loop by %s" % o[0], mk_replay)
@@ -247,7 +318,7 @@ def task_L4F(version):
             for v in vals:
                 want_val = z3.If(lit[(met, v)], z3.StringVal(v), want_val)
             good.append(z3.Implies(z3.Or(state.has[met], newly), st.val_z(met) == want_val))
-        lem.must_be_unsat(p, [z3.Not(z3.And(good))], "accepted field is a legal literal of a new metric and the map gains exactly that entry", mk_replay)
+        lem.must_be_unsat_subst(p, [z3.Not(z3.And(good))], "accepted field is a legal literal of a new metric and the map gains exactly that entry", mk_replay, f)
     # vacuity: an accepting and a rejecting path are reachable
     for kind in ("normal", "raise"):
         found = None
@@ -293,12 +364,8 @@ def conformance(chk, lem, paths, version, cls, table, state, f, MAL):
             got = "raise %s" % type(e).__name__
         want = describe_outcome(p.outcome)
         n += 1
-        if fv == "" and not fields and version == 2:
-            continue  # the empty v2 vector is rejected before the loop
         if fv == "":
-            # a trailing '/' is rejected before the loop (same class); nothing to compare
-            if got.startswith("raise") and want.startswith("raise"):
-                continue
+            continue  # an empty last field is a trailing '/': rejected before the loop is reached
         if got != want:
             bad += 1
             chk.harness_errors.append("translator validation: real parse_vector(%r) -> %s, executor path -> %s" % (vec, got, want))
@@ -344,7 +411,7 @@ def finish_lemma(chk, ex, lem, label, paths, outcomes, wall):
 # -------------------------------------------------------------------------------------------------
 
 
-def task_L2F(version):
+def _task_L2F(version):
     chk = Check("C04")
     label = "v%d L2F (free vector, code before the loop)" % version
     mod, cls, fn, node, idx, lines = locate(version)
@@ -352,6 +419,7 @@ def task_L2F(version):
     pre = node.body[:idx]
     MAL = malformed_cls(version)
     ex = S.Executor(mod)
+    ex.deadline = time.time() + budget_s()
     ex.encoded["%s:%s (statements before the loop)" % (fn.__module__, fn.__qualname__)] = (lines[0], lines[0] + for_node.lineno - node.lineno)
     V = z3.String("vector")
     heads = {2: [], 3: ["CVSS:3.0", "CVSS:3.1"], 4: ["CVSS:4.0"]}[version]
@@ -426,3 +494,17 @@ def task_L2F(version):
     second_solver(chk, lem.dec, label)
     finish_lemma(chk, ex, lem, label, paths, outcomes, time.time() - t0)
     return chk.to_dict()
+
+
+def _declining(fn, label):
+    def run(*args):
+        try:
+            return fn(*args)
+        except S.Unsupported as e:
+            return {"inconclusive": ["%s %r: the string executor declines: %s" % (label, args, e)]}
+
+    return run
+
+
+task_L4F = _declining(_task_L4F, "L4F")
+task_L2F = _declining(_task_L2F, "L2F")
